@@ -52,7 +52,8 @@ class C17(Prop):
     runs = {"quick": 12000, "thorough": 300000}
 
     def configure(self, rng, tier):
-        return {"steps": 10 ** 6, "n_sib": rng.choice([2, 3, 4, 6]), "chunk_law": rng.choice(["whole", "1..64", "1..7"]),
+        return {"steps": 10 ** 6, "n_sib": rng.choice([2, 3, 4, 6, 6, 11, 13]),
+                "family": rng.choice(["mixed", "mixed", "mixed", "at_limit"]), "chunk_law": rng.choice(["whole", "1..64", "1..7"]),
                 "kinds": rng.choice([["port"], ["cable"], ["instance"], ["port", "cable", "instance"],
                                      ["definition"], ["library"], ["port", "cable", "instance", "definition", "library"]]),
                 "policy_start": rng.choice(["DEFAULT", "DEFAULT", "EDIF"])}
@@ -68,6 +69,22 @@ class C17(Prop):
 
         def names(n, adv):
             out = []
+            if adv and cfg.get("family") == "at_limit":
+                # siblings whose identifiers all land on the 255 character limit and collide there: names that
+                # share their first 255 characters, names of exactly 255 that differ in case only, and names that
+                # already end in a conflict counter about to gain a digit
+                ch = r.choice("aAb")
+                for k in range(n):
+                    x = r.random()
+                    if x < 0.6:
+                        nm = ch * r.choice([255, 255, 256, 260]) + "%d" % k
+                    elif x < 0.8:
+                        nm = (ch.swapcase() if k % 2 else ch) * (255 - 7) + r.choice(["_sdn_9_", "_sdn_99_"][:1 + (k > 3)])
+                        nm = nm if nm not in out else nm[1:] + "q"
+                    else:
+                        nm = adversarial(r)
+                    out.append(nm)
+                return out
             for k in range(n):
                 out.append(adversarial(r) if adv else "n%d" % k)
             return out
